@@ -34,6 +34,7 @@ C04-e Remove rewrites the parent directory in all of its blocks (through writeDi
 C04-f in the extent loops of File.Read/Write an extent whose end (fileBlock+count, exclusive) equals the start block is skipped.
 C04-g in those loops the device offset of each transfer depends on a value the transfer's own count updates (shared with C10-f).
 C04-h every extent allocateExtents creates starts (fileBlock) at a value that depends on the blocks the file already has (previous.blockCount()).
+C04-i writer/encoder/decoder agreement on where a symlink target lives: every comparison of a symlink length with the in-inode limit in Symlink, inode.toBytes and inodeFromBytes splits at 60 (shared with C05-h): a site that splits elsewhere makes Symlink accept a target that ReadLink and ReadDir then cannot read.
 Not covered: the rest of the extent mapping arithmetic in File.Read/Write, directory block packing, path walking, equality with a reference tree.`)
 }
 
@@ -42,6 +43,7 @@ const pE4c = "filesystem/ext4"
 func init() {
 	register("C20", runC20, `One structural clause of reading reference-made ext4 volumes, decided statically.
 C20-a an image feature the library does not support must surface as an error, not a crash: an inode decoded from the image (readInode / inodeFromBytes) has no extent tree when it maps its blocks the ext2/ext3 way (mke2fs without the extent feature - in the property's quantifier), when it is a symlink stored in the inode, or a special file; every method call on its extents field is dominated by a nil test of that field.
+C20-b the reference tools keep a symlink target inside the inode exactly when it is shorter than 60 bytes (the size of i_block, NUL included): every comparison of a symlink length with that limit in the decoder, the encoder and Symlink splits at 60 (shared with C05-h), so a 60-byte target from mke2fs is read from its data block, not from the extent header bytes.
 Not covered (and not claimed): that decoded values equal what e2fsprogs wrote - hashed directories, interior extent nodes, holes, xattrs, feature gating of other incompatible features. Those need the reference implementation as an oracle; no static rule here decides them.`)
 }
 
@@ -58,7 +60,7 @@ func runC05(w *World, r *Report) {
 	runCodecFamily(w, r, "C05-e", codecPairsC05)
 	c05RemoveReleasesInode(w, r)
 	c05DirSize(w, r)
-	c05SymlinkLimit(w, r)
+	c05SymlinkLimit(w, r, "C05-h")
 	c05DirRecLen(w, r)
 	r.Floor("C05-h", r.countRule("C05-h"), 4)
 	r.Floor("C05-i", r.countRule("C05-i"), 2)
@@ -89,6 +91,8 @@ func runC04(w *World, r *Report) {
 	c04DirRewrite(w, r)
 	c04ExtentBoundary(w, r)
 	c04ExtentFileBlock(w, r)
+	c05SymlinkLimit(w, r, "C04-i")
+	r.Floor("C04-i", r.countRule("C04-i"), 4)
 	r.Floor("C04-h", r.countRule("C04-h"), 2)
 	// C04-g = C10-f under this property's name: the position inside an extent follows the advancing cursor
 	subc := newReport("C04", r.Tier)
@@ -1228,6 +1232,10 @@ func runC20(w *World, r *Report) {
 		"a method is called on inode.extents of an inode decoded from the image without testing it against nil: an inode that maps its blocks without extents (ext2/ext3-style files and directories, which mke2fs produces without the extent feature), a symlink stored in the inode or a special file has no extent tree, so reading it panics instead of failing with an error",
 		"no use of the extent tree of an inode decoded from the image")
 	r.Floor("C20-a", r.countRule("C20-a"), 5)
+	// C20-b: the reference tools keep a symlink target in the inode exactly when it is shorter than 60 bytes; the decoder
+	// (and the library's own writer, whose images must read the same way) split at the same length
+	c05SymlinkLimit(w, r, "C20-b")
+	r.Floor("C20-b", r.countRule("C20-b"), 4)
 }
 
 // inodeOfArbitraryEntry: v is the inode returned by readInode(e.inode) where e is a *directoryEntry reached
@@ -1734,7 +1742,7 @@ func c04ExtentFileBlock(w *World, r *Report) {
 // c05SymlinkLimit (C05-h): a symlink target is kept inside the inode only when it is shorter than 60 bytes (the size
 // of i_block); every comparison of a target length / inode size with a constant near 60 in Symlink, inode.toBytes and
 // inodeFromBytes splits the lengths at exactly 60 (n < 60 on one side, n >= 60 on the other).
-func c05SymlinkLimit(w *World, r *Report) {
+func c05SymlinkLimit(w *World, r *Report, rule string) {
 	fns := []*ssa.Function{w.Method(pE4c, "FileSystem", "Symlink"), w.Method(pE4c, "inode", "toBytes"), w.Func(pE4c, "inodeFromBytes")}
 	n := 0
 	for _, fn := range fns {
@@ -1786,12 +1794,12 @@ func c05SymlinkLimit(w *World, r *Report) {
 			}
 			k++
 			n++
-			r.Check(boundary == 60, "C05-h", fnName(fn), fmt.Sprintf("symlink target is kept in the inode exactly when shorter than 60 bytes #%d", k), w.relFile(bin.Pos()), "",
+			r.Check(boundary == 60, rule, fnName(fn), fmt.Sprintf("symlink target is kept in the inode exactly when shorter than 60 bytes #%d", k), w.relFile(bin.Pos()), "",
 				fmt.Sprintf("a symlink length is split at %d instead of 60: a target of %d bytes is stored in the inode (or read from it) although ext4 keeps only targets shorter than 60 bytes there (e2fsck: 'Symlink ... is invalid')", boundary, min(boundary, 60)))
 		})
 	}
 	if n == 0 {
-		r.Undecided("C05-h", "filesystem/ext4", "symlink length limit", "filesystem/ext4", "no comparison of a symlink length with the in-inode limit found")
+		r.Undecided(rule, "filesystem/ext4", "symlink length limit", "filesystem/ext4", "no comparison of a symlink length with the in-inode limit found")
 	}
 }
 
